@@ -16,7 +16,7 @@
 (* property being checked.  Several traces are concatenated; a "reset"     *)
 (* line starts a new one.                                                  *)
 (***************************************************************************)
-EXTENDS ExtWorld, Json, IOUtils
+EXTENDS ExtWorld, Hub2, Json, IOUtils
 
 Trace == ndJsonDeserialize(IOEnv.VERIF_TRACE)
 NoCfg == <<>>   \* traces carry their configuration in every state (cfg # "static")
@@ -57,7 +57,8 @@ ChainOf(c) ==
 StateOf(j, cfg) ==
     [cfg |-> cfg, h |-> j.h, t |-> j.t, inb |-> j.inb, bal |-> j.bal, sup |-> j.sup, stk |-> j.stk, tot |-> j.tot,
      ch |-> [c \in DOMAIN j.ch |-> ChainOf(j.ch[c])], st |-> j.st, fr |-> j.fr,
-     hold |-> j["or"].holdw, pr |-> j["or"].pr]
+     hold |-> j["or"].holdw, pr |-> j["or"].pr,
+     evm |-> IF "evm" \in DOMAIN j THEN j.evm ELSE <<>>]
 
 Dead(j) == "dead" \in DOMAIN j
 
@@ -73,7 +74,9 @@ ChainDiffs(c, e, o) ==   \* e expected, o observed chain state; returns the set 
   \cup (IF e.lnv # o.lnv THEN {<<"conf:lnv", c>>} ELSE {})
   \cup (IF e.ss # o.ss \/ e.ssn # o.ssn THEN {<<"conf:ss", c>>} ELSE {})
   \cup (IF e.loss # o.loss THEN {<<"conf:loss", c>>} ELSE {})
-  \cup (IF e.sigs # o.sigs THEN {<<"conf:sigs", c>>} ELSE {})
+       \* (signatures are projected for stored outgoing txs only; the store keeps those of deleted txs as orphans)
+  \cup (IF {gs \in e.sigs : (gs.tx.t = "ss" /\ \E x \in e.ss : x.n = gs.tx.n) \/ (gs.tx.t = "bat" /\ \E b \in e.bat : b.n = gs.tx.n /\ b.tok = gs.tx.tok)} # o.sigs
+        THEN {<<"conf:sigs", c>>} ELSE {})
   \cup (IF <<e.ve, e.ov, e.eo>> # <<o.ve, o.ov, o.eo>> THEN {<<"conf:keys", c>>} ELSE {})
 
 StateDiffs(e, o) ==
@@ -106,7 +109,7 @@ FailedIsNoop(pre, a, res, post) ==
     ELSE IF StateDiffs(pre, post) # {} THEN {<<"C11:FailedIsNoop", "">>} ELSE {}
 
 \* C01 needs the external world (custody): only behaviours of families that script it (Ext* lines) qualify
-WithWorld(fam) == fam \in {"econ", "bulk", "fees"}
+WithWorld(fam) == fam \in {"econ", "bulk", "fees", "evm"}
 ExtAct(a) == a.k \in {"ExtDeposit", "ExtExec", "ExtMine"}
 \* an ExtExec line must pay out exactly the batch the hub holds (otherwise the script is inconsistent)
 ExecConsistent(xw, pre, a) ==
@@ -145,10 +148,66 @@ C16Queries(gc, post) ==
         : v \in DOMAIN ch.q.unsigned}
       : c \in DOMAIN post.ch}
 
+\* ---------------------------------------------------------------- C08 / C07 / C13 against the REAL contract
+\* post.evm[c] is read from the real Hub2 bytecode on the simulated EVM; the relayer of the harness builds its
+\* calldata only from the hub's query results (signer set / batch, confirmations attributed by the queries).
+ContractOf(e) == [blk |-> e.blk, vsn |-> e.vsn, evn |-> e.evn, set |-> [n |-> e.set.n, m |-> e.set.m], lbn |-> e.lbn, cust |-> e.cust, thr |-> e.thr]
+ConfsOf(s, c, tx) ==
+    LET hits == {i \in DOMAIN s.ch[c].q.conf : s.ch[c].q.conf[i].tx = tx}
+    IN IF hits = {} THEN <<>> ELSE s.ch[c].q.conf[CHOOSE i \in hits : TRUE].list
+\* per member of the contract's current set: no signature / a signature by that member / something else
+RelayerMarks(s, c, tx, a) ==
+    LET k == ContractOf(s.evm[c])
+        confs == RangeOf(ConfsOf(s, c, tx))
+        incl(A) == "sigs" \notin DOMAIN a \/ \E v \in RangeOf(a.sigs) : Get(s.ch[c].ve, v, "") = A
+    IN [i \in DOMAIN k.set.m |->
+          LET A == k.set.m[i][1]
+              mine == {p \in confs : p[1] = A}
+          IN IF mine = {} \/ ~incl(A) THEN "none" ELSE IF \E p \in mine : p[2] = A THEN "ok" ELSE "bad"]
+EvmChecks(g, pre, a, res, post) ==
+    IF pre.evm = <<>> \/ a.k \notin {"EvmDeposit", "EvmUpdateValset", "EvmSubmitBatch", "EvmMine"} THEN {}
+    ELSE LET c == a.chain
+             k == ContractOf(pre.evm[c])
+             k2 == ContractOf(post.evm[c])
+         IN CASE a.k = "EvmUpdateValset" ->
+                   LET sets == {x \in pre.ch[c].ss : x.n = a.n} IN
+                   IF sets = {} THEN Fail(res.out = "ok", "C08:AcceptIffQuorum", "unknown-set")
+                   ELSE LET ss == CHOOSE x \in sets : TRUE
+                            want == UpdateAccepts(k, ss.n, k.set, RelayerMarks(pre, c, [t |-> "ss", n |-> ss.n], a))
+                        IN   Fail((res.out = "ok") # want, "C08:AcceptIffQuorum", IF want THEN "valset-rejected" ELSE "valset-accepted")
+                        \cup Fail(res.out = "ok" /\ ~(k2.set = [n |-> ss.n, m |-> ss.m] /\ k2.vsn = ss.n /\ k2.evn = k.evn + 1), "C08:ContractState", "valset")
+                        \cup Fail(res.out # "ok" /\ <<k2.set, k2.vsn, k2.evn, k2.lbn>> # <<k.set, k.vsn, k.evn, k.lbn>>, "C08:RevertChangedState", "valset")
+              [] a.k = "EvmSubmitBatch" ->
+                   LET bs == {b \in pre.ch[c].bat : b.tok = a.tok /\ b.n = a.n} IN
+                   IF bs = {}
+                   THEN \* a batch the hub no longer holds: withdrawn (then the contract must refuse it for ever) or already executed
+                        Fail(res.out = "ok" /\ <<a.tok, a.n>> \in g.wd[c], "C13:WithdrawnBatchExecuted", c)
+                   ELSE LET b == CHOOSE b \in bs : TRUE
+                            want == BatchAccepts(k, k.set, RelayerMarks(pre, c, [t |-> "bat", tok |-> b.tok, n |-> b.n], a), b)
+                            paid == SumOver(b.txs, LAMBDA tr : tr.a)
+                        IN   Fail((res.out = "ok") # want, "C08:AcceptIffQuorum", IF want THEN "batch-rejected" ELSE "batch-accepted")
+                        \cup Fail(res.out = "ok" /\ ~(Get(k2.lbn, b.tok, 0) = b.n /\ k2.evn = k.evn + 1 /\ Get(k2.cust, b.tok, 0) = Get(k.cust, b.tok, 0) - paid), "C08:ContractState", "batch")
+                        \cup Fail(res.out # "ok" /\ <<k2.set, k2.vsn, k2.evn, k2.lbn, k2.cust>> # <<k.set, k.vsn, k.evn, k.lbn, k.cust>>, "C08:RevertChangedState", "batch")
+              [] a.k = "EvmDeposit" ->
+                   Fail(res.out = "ok" /\ ~(Get(k2.cust, a.tok, 0) = Get(k.cust, a.tok, 0) + a.amt /\ k2.evn = k.evn + 1), "C08:DepositLocks", c)
+              [] OTHER -> {}
+\* the hub never runs ahead of the contract, and is in step with it once every emitted event is applied
+EvmInStep(post) ==
+    IF post.evm = <<>> THEN {}
+    ELSE UNION {
+          LET k == ContractOf(post.evm[c]) h == post.ch[c] IN
+               Fail(h.lon > k.evn, "C08:InStep", "event-nonce-ahead")
+          \cup Fail(h.loss # <<>> /\ h.loss.n > k.vsn, "C08:InStep", "valset-ahead")
+          \cup Fail(h.lon = k.evn /\ h.loss # <<>> /\ ~(h.loss.n = k.vsn /\ h.loss.m = k.set.m), "C08:InStep", "valset-differs")
+               \* C07: the digest the hub computes for the contract's current set is the checkpoint the contract stores
+          \cup Fail(post.evm[c].cp # post.evm[c].cph, "C07:CheckpointAgrees", c)
+          : c \in DOMAIN post.evm}
+
 PropChecks(g, xw, fam, pre, a, res, post) ==
        FailedIsNoop(pre, a, res, post)
   \cup (IF Modelled(a) THEN StepChecks(g, pre, a, res, post) \cup C01Step(pre, a, post) ELSE C05Checks(a, res))
   \cup (IF WithWorld(fam) /\ ~Solvent(post, xw) THEN {<<"C01:Solvency", "">>} ELSE {})
+  \cup EvmChecks(g, pre, a, res, post) \cup EvmInStep(post)
   \cup (IF WithWorld(fam) /\ ~ExecConsistent(xw, pre, a) THEN {<<"infra:ExecInconsistent", "">>} ELSE {})
 
 \* ---------------------------------------------------------------- the trace automaton
@@ -178,7 +237,16 @@ ConsumeStep ==
                                     !.cov = Bump(@, CovKey(line.act, line.res))]
        ELSE LET post == StateOf(line.post, hist.cfg)
                 gc2  == GcNext(hist.gc, hist.pre, line.act, line.res)
-                xw1  == IF ExtAct(line.act) /\ WithWorld(hist.fam) THEN XwApply(hist.xw, line.act) ELSE hist.xw
+                xw0  == IF ExtAct(line.act) /\ WithWorld(hist.fam) THEN XwApply(hist.xw, line.act) ELSE hist.xw
+                \* evm family: custody and executed batches are what the real contract reports
+                xw1  == IF hist.fam = "evm" /\ post.evm # <<>>
+                        THEN [c \in DOMAIN xw0 |->
+                                IF c \in DOMAIN post.evm
+                                THEN [xw0[c] EXCEPT !.cust = [t \in DOMAIN @ |-> Get(post.evm[c].cust, t, 0)],
+                                                    !.done = IF line.act.k = "EvmSubmitBatch" /\ line.res.out = "ok" /\ line.act.chain = c
+                                                             THEN @ \cup {<<line.act.tok, line.act.n>>} ELSE @]
+                                ELSE xw0[c]]
+                        ELSE xw0
                 xw2  == IF WithWorld(hist.fam) THEN XwObserve(xw1, post) ELSE xw1
             IN /\ fails' = ConfChecks(hist.pre, line.act, line.res, post) \cup PropChecks(hist.g, xw2, hist.fam, hist.pre, line.act, line.res, post)
                             \cup C16Queries(gc2, post)
